@@ -117,9 +117,17 @@ package dnsserver
 //@ extern github.com/hashicorp/golang-lru Cache.Remove
 //@ pure
 
+// AcquireReader (C05, C06, C14): the served DB is read AND pinned (reference taken) under the read lock,
+// so a reload cannot destroy it in between.
 //@ func FBDNSDB.AcquireReader
-//@ trusted
-//@ ensures err == nil ==> result0 != nil
+//@ updates closes
+//@ flag skip frame
+//@ requires h.dnsdb != nil ==> dbInv(h.dnsdb) && closes[h.dnsdb.dbi] == 0 && h.dnsdb.refCount < 1000000000
+//@ ensures[nonnil] err == nil ==> result0 != nil
+//@ ensures[pinned] err == nil ==> rdb(result0) != nil && dbInv(rdb(result0)) && rdb(result0).refCount >= 1 && closes[rdb(result0).dbi] == 0
+//@ ensures[closes] closes == old(closes)
+//@ ensures[unlocked] held(h.reloadMu) == 0
+//@ before NewReader#0 assert[pinned-under-lock] held(h.reloadMu) == 1
 
 // every per-type counter key is "DNS_query.<TYPE>": its 10th byte is '.', unlike any fixed counter name
 //@ func typeToStatsKey
@@ -133,10 +141,11 @@ package dnsserver
 
 // ---- the query handler's decision skeleton (C01, C10, C12, C13, C19) -----------------------------------
 //@ func FBDNSDB.ServeDNSWithRCODE
-//@ updates cnt, nlogged, lastLogged, loggedAt, nlogfailed, nwritten, lastWritten, writtenAt, mut
+//@ updates cnt, nlogged, lastLogged, loggedAt, nlogfailed, nwritten, lastWritten, writtenAt, mut, closes
 //@ flag skip frame
 //@ requires h.logger != nil && h.stats != nil && w != nil && r != nil
 //@ requires h.cacheConfig.Enabled ==> h.lru != nil
+//@ requires h.dnsdb != nil ==> dbInv(h.dnsdb) && closes[h.dnsdb.dbi] == 0 && h.dnsdb.refCount < 1000000000
 //@ ensures[queries] cnt["DNS_queries"] == old(cnt)["DNS_queries"] + 1
 //@ before FBDNSDB.writeAndLog#0 assert[badvers] a != nil && a.Rcode == dns.RcodeBadVers && a.Id == r.Id && a.Response
 //@ before FBDNSDB.writeAndLog#1 assert[hit-shape] resp != nil && resp.Id == r.Id && resp.Response
@@ -151,3 +160,27 @@ package dnsserver
 //@ before FBDNSDB.writeAndLog#3 assert[ecsobj] ecs == nil || ecs == uf.ecsof(r)
 //@ before Cache.Add#0 assert[cache-before-opt] o == nil
 //@ before Cache.Add#1 assert[cache-before-opt] o == nil
+
+// ---- reload (C05, C12): swap, path and purge happen together, under the write lock; failure changes nothing
+//@ ghostvar purges int
+//@ extern github.com/hashicorp/golang-lru Cache.Purge
+//@ updates purges
+//@ ensures purges == old(purges) + 1
+
+//@ func FBDNSDB.cleanupSignalFile
+//@ trusted
+//@ pure
+
+//@ func FBDNSDB.Reload
+//@ updates cnt, purges, closes
+//@ flag skip frame
+//@ ghostret np str = newPath
+//@ requires h.stats != nil && h.dnsdb != nil && closes[h.dnsdb.dbi] == 0 && !h.dnsdb.destroyable && h.dnsdb.dbi != nil && closes[h.dnsdb.dbi] == ite(h.dnsdb.destroyable && h.dnsdb.refCount == 0, 1, 0)
+//@ ensures[nopayload] s.Kind == FullReload && s.Payload == "" ==> err != nil && h.dnsdb == old(h.dnsdb) && h.dbConfig.Path == old(h.dbConfig.Path) && purges == old(purges)
+//@ ensures[lock] held(h.reloadMu) == 0
+//@ ensures[purged] h.dnsdb != old(h.dnsdb) || purges != old(purges) || !h.cacheConfig.Enabled || h.lru == nil || h.dbConfig.Path == old(h.dbConfig.Path)
+//@ before DB.Reload#0 assert[locked] held(h.reloadMu) == 2
+//@ before DB.Reload#0 assert[path] (s.Kind == FullReload ==> newPath == s.Payload) && (s.Kind == PartialReload ==> newPath == h.dbConfig.Path)
+//@ after DB.Reload#0 assert[failkeeps] err != nil ==> h.dnsdb == old(h.dnsdb) && h.dbConfig.Path == old(h.dbConfig.Path) && purges == old(purges)
+//@ before Cache.Purge#0 assert[swap-then-purge] held(h.reloadMu) == 2 && h.dnsdb == newDB && h.dbConfig.Path == newPath
+//@ before FBDNSDB.cleanupSignalFile#0 assert[swapped] h.dnsdb == newDB && h.dbConfig.Path == newPath && (h.cacheConfig.Enabled && h.lru != nil ==> purges == old(purges) + 1)
